@@ -2,8 +2,8 @@
 (* Trace validation of the lnwire executor.  Line kinds:                     *)
 (*  Law           one observation of the codec on one (mutated) input; must  *)
 (*                be the next cell x repetition of the plan (keys strictly   *)
-(*                increasing, |PlanCells| * Reps lines in total = the plan   *)
-(*                is covered exactly), and must satisfy every law.  For the  *)
+(*                increasing, |PlanCells| * Reps lines in total - RecReps    *)
+(*                for a record-level cell - = the plan is covered exactly), and must satisfy every law.  For the  *)
 (*                value-boundary operators val-int, -bytes, -len the line    *)
 (*                also carries the                                           *)
 (*                field that was set (fld, gotype, w, fi of nf): the field   *)
@@ -11,7 +11,19 @@
 (*                applicable" is only accepted where the value has no such   *)
 (*                field or the class does not exist for its width (Fits),    *)
 (*                and ValueLaw decides the round trip (deviation             *)
-(*                value-roundtrip)                                           *)
+(*                value-roundtrip).  For the record-level operators rec-ins, *)
+(*                rec-drop, rec-len it carries hasext / nrec (the message    *)
+(*                has a TLV extension, with so many records), the two halves *)
+(*                of the position class (tcls, lcls: type and length class   *)
+(*                of the inserted record; for rec-len the record selection   *)
+(*                and the resize class), rlen (bytes of the selected         *)
+(*                record) and rkept (the re-encoding still holds the         *)
+(*                inserted record): "not applicable" is only accepted for a  *)
+(*                message type without extension (NoExtTypes), an extension  *)
+(*                without records, a value too short for the resize, or an   *)
+(*                input beyond 65535 bytes; RecAccept / RecPreserved decide  *)
+(*                (deviations ext-canonical-rejected, ext-record-lost,       *)
+(*                ext-not-reproduced)                                        *)
 (*  Dispatch      ReadMessage answered `res` for every type in lo..hi (the   *)
 (*                ranges must tile 0..65535); FailDispatch likewise          *)
 (*  Write         WriteMessage of a plen-byte payload onto pre bytes         *)
@@ -19,7 +31,8 @@
 (* Every deviation is written to dev.txt as  <what> <kind> <t> <op> <line>;  *)
 (* the postcondition NoDeviation rejects the trace if there was any.         *)
 EXTENDS WireLaws, Json, CSV
-CONSTANTS Reps
+CONSTANTS Reps, RecReps      \* repetitions per plan cell; of a record-level cell (its classes are fixed, a repetition only varies the generated message)
+RepsOf(op) == IF op \in RecOps THEN RecReps ELSE Reps
 VARIABLES l, prev, nlaw, dnext, fnext, nwrite, ndev
 
 vars == <<l, prev, nlaw, dnext, fnext, nwrite, ndev>>
@@ -30,6 +43,8 @@ Report(ds, k, t, op, line) ==
 Count(ds) == /\ ndev' = ndev + Cardinality(ds)
              /\ TLCSet(1, ndev + Cardinality(ds))
 
+PlanSize == Cardinality({c \in PlanCells : c.op \notin RecOps}) * Reps + Cardinality({c \in PlanCells : c.op \in RecOps}) * RecReps
+
 TInit == /\ TLCSet(1, 0)
          /\ l = 1 /\ prev = <<0, 0, 0, 0, 0>> /\ nlaw = 0 /\ dnext = 0 /\ fnext = 0 /\ nwrite = 0 /\ ndev = 0
 
@@ -37,18 +52,28 @@ Is(a) == l <= Len(Trace) /\ Trace[l].a = a /\ l' = l + 1
 
 LawDevs(o) ==
   LET c == Cell(o.kind, o.t, o.op, o.pos) IN
-  (IF ~(o.kind \in {"msg", "fail", "pkt"} /\ o.op \in {Ops[i] : i \in 1..Len(Ops)}
-        /\ o.pos \in {Poss[i] : i \in 1..Len(Poss)}) THEN {"not-a-cell"}
-   ELSE IF ~InPlan(c) \/ o.rep \notin 1..Reps THEN {"not-in-plan"}
+  (IF ~(o.kind \in {"msg", "fail", "pkt"} /\ o.op \in OpsSet /\ o.pos \in PossSet) THEN {"not-a-cell"}
+   ELSE IF ~InPlan(c) \/ o.rep \notin 1..RepsOf(o.op) THEN {"not-in-plan"}
    ELSE IF ~KeyLess(prev, Key(c, o.rep)) THEN {"plan-order"} ELSE {})
   \cup (IF o.op \in ValOps /\ o.nf > 0 /\ o.fi # FieldOf(o.rep, o.nf) THEN {"field-plan"} ELSE {})
   \cup (IF o.na = 1
           THEN (IF o.op \in ValOps
                   THEN (IF o.nf = 0 \/ ~Fits(o.op, o.pos, o.w) THEN {} ELSE {"unexpected-na"})
+                  ELSE IF o.op \in RecOps
+                  THEN (IF \/ (o.hasext = 0 /\ NoExt(o.kind, o.t))
+                           \/ o.ilen > MaxMsg
+                           \/ (o.hasext = 1 /\ o.nrec = 0 /\ o.op \in {"rec-drop", "rec-len"})
+                           \/ (o.hasext = 1 /\ o.nrec > 0 /\ o.op = "rec-len" /\ o.lcls \in Range(DeltaClasses)
+                               /\ o.rlen < DeltaNeed(o.lcls))
+                          THEN {} ELSE {"unexpected-na"})
                   ELSE IF o.op \in {"len-1", "len+1", "len-max", "ext-odd", "var-bound"} \/ o.vlen <= 2 \/ o.vlen > MaxMsg - 5
                          THEN {} ELSE {"unexpected-na"})
           ELSE (IF o.ilen <= MaxMsg THEN {} ELSE {"input-outside-domain"})
                \cup (IF o.op \in ValOps /\ (o.nf = 0 \/ ~Fits(o.op, o.pos, o.w)) THEN {"field-plan"} ELSE {})
+               \cup (IF o.op \in RecOps /\ ~(o.hasext = 1 /\ o.pos = (IF o.lcls = "" THEN o.tcls ELSE o.tcls \o "." \o o.lcls))
+                       THEN {"field-plan"} ELSE {})
+               \cup (IF RecAccept(o) THEN {} ELSE {"ext-canonical-rejected"})
+               \cup (IF RecPreserved(o) THEN {} ELSE {IF o.e1 = 1 /\ o.rkept = 1 THEN "ext-not-reproduced" ELSE "ext-record-lost"})
                \cup (IF ValueLaw(o) THEN {} ELSE {"value-roundtrip"})
                \cup (IF Totality(o) THEN {} ELSE {IF o.pan = 1 THEN "panic" ELSE IF o.hang = 1 THEN "hang" ELSE "alloc"})
                \cup (IF Bound(o) THEN {} ELSE {"bound"})
@@ -101,7 +126,7 @@ ReadShortL == /\ Is("ReadShort")
 
 \* end of trace: coverage
 Done == /\ l = Len(Trace) + 1
-        /\ LET ds == (IF nlaw = Cardinality(PlanCells) * Reps THEN {} ELSE {"plan-not-covered"})
+        /\ LET ds == (IF nlaw = PlanSize THEN {} ELSE {"plan-not-covered"})
                      \cup (IF dnext = 65536 /\ fnext = 65536 THEN {} ELSE {"dispatch-not-covered"})
                      \cup (IF nwrite >= 6 THEN {} ELSE {"write-not-covered"}) IN
            /\ Report(ds, "-", 0, "-", l) /\ Count(ds)
@@ -112,6 +137,6 @@ TNext == Law \/ DispatchL \/ FailDispatchL \/ WriteL \/ ReadShortL \/ Done
          \/ (l = Len(Trace) + 2 /\ UNCHANGED vars)
 TSpec == TInit /\ [][TNext]_vars
 
-TypeOK == nlaw <= Cardinality(PlanCells) * Reps /\ dnext <= 65536 /\ fnext <= 65536
+TypeOK == nlaw <= PlanSize /\ dnext <= 65536 /\ fnext <= 65536
 NoDeviation == TLCGet(1) = 0
 =============================================================================
